@@ -256,6 +256,10 @@ class Statechart:
         if transition not in self._transitions:
             raise StatechartError('Unknown transition {}'.format(transition))
 
+        # Check that new target exists before changing anything
+        if new_target != '' and new_target is not None:
+            self.state_for(new_target)
+
         # Rotate using source
         if new_source != '':
             new_source_state = self.state_for(new_source)
